@@ -12,6 +12,8 @@ for pid in props:
     if not f.exists() or not (V / "harness" / f"{pid.lower()}.py").exists():
         continue
     m = json.loads(f.read_text())
+    if m.get("technique", "").strip().lower() in ("placeholder", "stub", "") or not m.get("ready", True):
+        continue      # builder has not landed this check yet
     claimed.add(pid)
     checks.append({
         "property_id": pid,
